@@ -445,6 +445,14 @@ func TestVerifC19(t *testing.T) {
 		}
 	}
 	m.Count("struct_pairs_compared", int64(programs))
+	for _, n := range []string{"struct conn_state", "struct tuples_key", "struct dae_param"} {
+		cf := map[string]c19Field{}
+		native.flatten(n, 0, "", cf, 0)
+		gf := map[string]c19Field{}
+		c19GoLeaves(reflect.TypeOf(c19Pairs[n]), 0, "", gf)
+		m.Sample(map[string]any{"c_struct": n, "go_type": reflect.TypeOf(c19Pairs[n]).Name(), "c_fields_size_offset": fmt.Sprint(cf), "go_fields_size_offset": fmt.Sprint(gf),
+			"sizeof_x86_64": native.structs[n][""].size, "sizeof_bpf": bpf.structs[n][""].size})
+	}
 	// no shared struct may escape the pairing table
 	for sname := range native.structs {
 		if _, ok := c19Pairs[sname]; !ok && !c19KernelPrivate[sname] {
